@@ -329,6 +329,36 @@ static Wire named_entry(Reader& r) {
     });
 }
 
+
+// ---- lookups on a REUSED Geometry: model A loaded, every name looked up once, model B loaded into the same object ----
+// [kind nameidx] -> [0 pos nvertices] | class ; 9 = an object of another name was returned
+static Wire reused_lookup(Reader& r) {
+    static std::vector<std::string> names=split_env("C18_NAMES");
+    static Geometry* g=nullptr;
+    if (!g) {
+        g=new Geometry(); g->load(g_geom,g_cond);
+        for (const std::string& q : names) {
+            try { g->mesh(q); } catch (...) { }
+            try { const Geometry& c=*g; c.mesh(q); } catch (...) { }
+            try { g->interface(q); } catch (...) { }
+            try { g->domain(q); } catch (...) { }
+        }
+        g->load(getenv("C18_GEOM_B"),getenv("C18_COND_B"));
+    }
+    ll kind=r.z(); size_t k=r.n(); if (k>=names.size()) return Wire{-1};
+    const std::string& q=names[k];
+    return guarded([&]()->Wire {
+        const Geometry& cg=*g; ll pos=0;
+        switch (kind) {
+        case 0: { Mesh& m=g->mesh(q); for (auto& x:g->meshes()) { if (&x==&m) { if (m.name()!=q) return Wire{9,pos}; return Wire{0,pos,(ll)m.vertices().size()}; } ++pos; } return Wire{9,-1}; }
+        case 1: { const Mesh& m=cg.mesh(q); for (auto& x:cg.meshes()) { if (&x==&m) { if (m.name()!=q) return Wire{9,pos}; return Wire{0,pos,(ll)m.vertices().size()}; } ++pos; } return Wire{9,-1}; }
+        case 2: { const Interface& i=cg.interface(q); if (i.name()!=q) return Wire{9,-1}; return Wire{0,-1,-1}; }
+        case 3: { const Domain& d=cg.domain(q); for (auto& x:cg.domains()) { if (&x==&d) { if (d.name()!=q) return Wire{9,pos}; return Wire{0,pos,-1}; } ++pos; } return Wire{9,-1}; }
+        }
+        return Wire{-1};
+    });
+}
+
 // replay of the refuted accessor theorem: SymMatrix(65536)(0,65535): pinned = write far outside a 256 KB buffer
 static Wire big_sym(Reader& r) {
     U n=getU(r), i=getU(r), j=getU(r);
@@ -355,6 +385,7 @@ int main(int argc,char** argv) {
         case 8: return singular(r);
         case 9: return failed_load(r);
         case 10: return named_entry(r);
+        case 11: return reused_lookup(r);
         }
         return Wire{-1};
     });
